@@ -206,7 +206,9 @@ func runCombinedNesting(ctx *core.Ctx) {
 			patch += "," + u.second
 		}
 		patch += "]"
-		w.Tick(func() string { return "combined nesting: add a 6000-deep value at the bottom of a 6000-deep document, then " + u.second })
+		w.Tick(func() string {
+			return "combined nesting: add a 6000-deep value at the bottom of a 6000-deep document, then " + u.second
+		})
 		for _, indent := range []string{"", " "} {
 			call := impl.Call{Doc: []byte(u.sh.doc), Patch: []byte(patch), Opt: defaultOpt, Indent: indent}
 			var o impl.Obs
